@@ -1297,8 +1297,7 @@ impl ASN1Value {
                 }),
                 ASN1Value::BitStringNamedBits(o),
             ) => {
-                if let Some(highest_distinguished_bit) = distinguished.iter().map(|d| d.value).max()
-                {
+                if let Some(highest_distinguished_bit) = highest_named_bit(distinguished) {
                     *self = ASN1Value::BitString(bit_string_value_from_named_bits(
                         highest_distinguished_bit,
                         o,
@@ -1321,7 +1320,7 @@ impl ASN1Value {
                 ASN1Value::LinkedNestedValue { value, .. },
             ) if matches![**value, ASN1Value::BitStringNamedBits(_)] => {
                 if let (ASN1Value::BitStringNamedBits(o), Some(highest_distinguished_bit)) =
-                    (&**value, distinguished.iter().map(|d| d.value).max())
+                    (&**value, highest_named_bit(distinguished))
                 {
                     **value = ASN1Value::BitString(bit_string_value_from_named_bits(
                         highest_distinguished_bit,
@@ -1759,6 +1758,17 @@ impl ASN1Value {
         }
         Ok(())
     }
+}
+
+/// The highest named bit of a BIT STRING type, as long as a value of that length can
+/// reasonably be spelled out bit by bit (a named bit `b(100000000000000)` cannot).
+fn highest_named_bit(distinguished: &[DistinguishedValue]) -> Option<i128> {
+    const LONGEST_SPELLED_OUT_VALUE: i128 = u16::MAX as i128;
+    distinguished
+        .iter()
+        .map(|d| d.value)
+        .max()
+        .filter(|bit| *bit <= LONGEST_SPELLED_OUT_VALUE)
 }
 
 fn bit_string_value_from_named_bits(
